@@ -84,6 +84,38 @@ def cam_quats(seed):
     return out
 
 
+def quat_of_euler(yaw, pitch, roll):
+    return ref.quat_of(ref.logm_rot(ref.R_from_euler321([yaw, pitch, roll])))
+
+
+def harvested_cams(res, prog, flat_of_q, tier):
+    """camera attitudes next to every outcome change of the compiled controller along rays through attitude space: pitch from straight
+    down to straight up with roll, small roll AND pitch growing together, yaw and roll through a whole turn.  Cameras within 1e-7 rad
+    of the edge of the 3-2-1 gimbal band are left out (the reference and the library may sit on different sides of that edge)."""
+    rays = []
+    hp = math.pi / 2
+    for yaw, roll in ((0.7, 0.3), (-2.0, -1.2), (0.0, 0.05)):
+        rays.append(("pitch(yaw=%g,roll=%g)" % (yaw, roll), lambda t, yaw=yaw, roll=roll: quat_of_euler(yaw, t, roll), [-hp + 1.5e-3] + [k * hp / 12 for k in range(-11, 12)] + [hp - 1.5e-3]))
+    tilts = [0.0, 1e-6, 1e-4, 1e-3, 1e-2, 0.03, 0.06, 0.1, 0.2, 0.4, 0.6]
+    for yaw, kr, kp_ in ((0.7, 1.0, 1.0), (-2.0, 1.0, -0.5), (0.0, -0.3, 1.0)):
+        rays.append(("tilt(yaw=%g,roll=%gt,pitch=%gt)" % (yaw, kr, kp_), lambda t, yaw=yaw, kr=kr, kp_=kp_: quat_of_euler(yaw, kp_ * t, kr * t), tilts))
+    turn = [k * math.pi / 8 for k in range(-8, 9)]
+    rays.append(("yaw(pitch=0.3,roll=-0.2)", lambda t: quat_of_euler(t, 0.3, -0.2), turn))
+    rays.append(("roll(yaw=0.7,pitch=0.3)", lambda t: quat_of_euler(0.7, 0.3, t), turn))
+    out = []
+    for tag, mk, ts in rays:
+        mem = harvest.ray_members(prog, lambda t: flat_of_q(mk(t)), ts, per_cell=(8 if tier == "quick" else 32), cap=40)
+        res.count("harvested_members", len(mem))
+        for t in mem:
+            q = mk(t)
+            pitch = math.asin(max(-1.0, min(1.0, -ref.R_from_quat(q)[2, 0])))
+            if abs(abs(abs(pitch) - hp) - 1e-3) < 1e-7:
+                res.count("excluded_by_reference")
+                continue
+            out.append((tag, t, q))
+    return out
+
+
 def judge_setpoint(res, site, q, nT, F, xC, degenerate, info, case):
     """q: returned quaternion; F: reference demanded force; xC heading vector"""
     cls = degenerate or "regular"
@@ -169,8 +201,14 @@ def explore_pc(case):
                 cases.append((yt, qc, -Fd / r.kp_pos, np.zeros(3), np.zeros(3), 0.0, 0.0, "offaxis=%r" % d))
                 Fh = sgn * (math.cos(d) * xC + math.sin(d) * horiz)
                 cases.append((yt, qc, -Fh / r.kp_pos, np.zeros(3), np.zeros(3), 0.0, 0.0, "azimuth=%r" % d))
+    cases = cases[part::nparts]
+    if part == 0:
+        e_gen = np.array([1.0, -2.0, 3.0])
+        for tag, t, qc in harvested_cams(res, prog, lambda q: [[mg], [0.3, -0.1, 2.0], [0.1, 0.0, -0.2], [0.0] * 3, list(q), list(np.array([0.3, -0.1, 2.0]) + e_gen), [0.1, 0.0, -0.2], [0.0], [0.01]], tier):
+            for e_p in (e_gen, np.array([0.1, 0.0, 0.0])):
+                cases.append((None, qc, e_p, np.zeros(3), np.zeros(3), mg, 0.0, "harvested camera %s t=%r" % (tag, t)))
     sigs = set()
-    for yt, qc, e_p, e_v, at, trim, z_i, tag in cases[part::nparts]:
+    for yt, qc, e_p, e_v, at, trim, z_i, tag in cases:
         res.count("evaluations")
         pt, vt = np.array([0.3, -0.1, 2.0]), np.array([0.1, 0.0, -0.2])
         p_w, v_w = pt + e_p, vt + e_v
@@ -188,7 +226,7 @@ def explore_pc(case):
         judge_setpoint(res, "position_control", q, nT, F, xC, degenerate_class(F, xC),
                        dict(trim=trim, e_p=e_p_eff, e_v=e_v, at_w=at, qc=qc, z_i=z_i, tag=tag), case)
     res.add_set("cells_position_control", len(sigs))
-    res.samples.append(dict(fn="position_control", cases=len(cases[part::nparts])))
+    res.samples.append(dict(fn="position_control", cases=len(cases)))
     return res
 
 
@@ -219,7 +257,13 @@ def explore_se23(case):
                 deg.append(((yt, qc), np.zeros(9), Fd / r.m, 0.0, 0.0))
                 Fh = sgn * (math.cos(d) * xC + math.sin(d) * np.cross(np.array([0, 0, 1.0]), xC))
                 deg.append(((yt, qc), np.zeros(9), Fh / r.m, 0.0, 0.0))
-    for (yt, qc), zeta, at, trim, z_i in (cases + deg)[part::nparts]:
+    allc = (cases + deg)[part::nparts]
+    if part == 0:
+        prog = sxvm.compile_fn(f)
+        for tag, t, qc in harvested_cams(res, prog, lambda q: [[mg], list(kp), list(zetas[2]), [0.0] * 3, list(q), [0.0], [0.01]], tier):
+            for zeta in (zetas[2], zetas[1]):
+                allc.append(((None, qc), zeta, np.zeros(3), mg, 0.0))
+    for (yt, qc), zeta, at, trim, z_i in allc:
         res.count("evaluations")
         out = f(trim, kp, zeta, at, qc, z_i, 0.01)
         nT, q = float(out[0]), arr(out[1])
@@ -236,7 +280,7 @@ def explore_se23(case):
             res.nontrivial.add(hash((qc.tobytes(), zeta.tobytes(), at.tobytes(), trim, z_i)))
         res.outcomes.add(hash(np.round(F, 8).tobytes()))
         judge_setpoint(res, "se23_position_control", q, nT, F, xC, degenerate_class(F, xC), dict(trim=trim, zeta=zeta, at_w=at, qc=qc, z_i=z_i), case)
-    res.samples.append(dict(fn="se23_position_control", cases=len((cases + deg)[part::nparts])))
+    res.samples.append(dict(fn="se23_position_control", cases=len(allc)))
     return res
 
 
@@ -268,7 +312,29 @@ def explore_flat(case):
                 th = c * (math.cos(d) * xc + math.sin(d) * np.cross(np.array([0, 0, 1.0]), xc))
                 a = np.array([0, 0, g_]) - th / m_
                 cases.append((psi, a, jerks[1], snaps[1], 0.4, -0.3, "parallel azimuth d=%g" % d))
-    for psi, a, j, s, pd, pdd, tag in cases[part::nparts]:
+    cases = cases[part::nparts]
+    if part == 0:
+        # thrust directions next to every outcome change of either compiled variant along great circles through the world axes and
+        # along a generic one, at a heading that is aligned with none of them
+        circles = [("x-z", np.array([1.0, 0, 0]), np.array([0, 0, 1.0])), ("y-z", np.array([0, 1.0, 0]), np.array([0, 0, 1.0])), ("x-y", np.array([1.0, 0, 0]), np.array([0, 1.0, 0])),
+                   ("generic", np.array([0.6, -0.64, 0.48]), np.array([0.8, 0.48, -0.36]))]
+        ts = [k * math.pi / 12 for k in range(-12, 13)]
+        progs = [(sxvm.compile_fn(M["f_ref"]), lambda psi, a: [[psi], [0.4], [-0.3], list(vels[0]), list(a), list(jerks[1]), list(snaps[1])]),
+                 (sxvm.compile_fn(M["mr_ref_traj"]), lambda psi, a: [[psi], [0.4], [-0.3], list(vels[0]), list(a), list(jerks[1]), list(snaps[1]), [m_], [g_], [bz.J_xx], [bz.J_yy], [bz.J_zz], [bz.J_xz]])]
+        for psi in (0.7, 0.0):
+            for ctag, e1, e2 in circles:
+                def acc_at(t, e1=e1, e2=e2):
+                    return np.array([0, 0, g_]) - 5.0 * (math.cos(t) * e1 + math.sin(t) * e2) / m_
+                mem = set()
+                for prog, mk in progs:
+                    try:
+                        mem.update(harvest.ray_members(prog, lambda t: mk(psi, acc_at(t)), ts, per_cell=(8 if tier == "quick" else 32), cap=60))
+                    except sxvm.NotRational:
+                        pass
+                res.count("harvested_members", len(mem))
+                for t in sorted(mem):
+                    cases.append((psi, acc_at(t), jerks[1], snaps[1], 0.4, -0.3, "harvested thrust direction circle=%s t=%r" % (ctag, t)))
+    for psi, a, j, s, pd, pdd, tag in cases:
         res.count("evaluations")
         v = vels[0]
         o1 = M["f_ref"](psi, pd, pdd, v, a, j, s)
@@ -359,7 +425,7 @@ def explore_flat(case):
             same = same and maxabs(w1 - w2) <= 1e-9 * (1 + maxabs(w2)) and maxabs(wd1 - wd2) <= 1e-8 * (1 + maxabs(wd2)) and maxabs(Mb1 - Mb2) <= 1e-8 * (1 + maxabs(Mb2))
         if not same:
             res.fail(site="f_ref_vs_mr_ref_traj", clause="shipped_variants_agree", cls="regular", detail=dict(info, w1=w1, w2=w2, M1=Mb1, M2=Mb2), sub="flat", case=case)
-    res.samples.append(dict(fn="flatness", cases=len(cases[part::nparts])))
+    res.samples.append(dict(fn="flatness", cases=len(cases)))
     return res
 
 
